@@ -205,6 +205,38 @@ def run(rep):
         if a != b:
             rep.disagreement('c09:' + c['src'], 'analysis outcome differs from the model',
                              {'src': c['src'], 'sexp': G.to_sexp(c['ast']), 'impl': a, 'model': b})
+    # every spelling of a static field name is the same name: two spellings of one name in one object are a
+    # duplicate wherever the object stands (also in code that never runs)
+    def spellings(name):
+        esc = name.replace('\\', '\\\\').replace('"', '\\"').replace('\n', '\\n')
+        out = ['"%s"' % esc, "'%s'" % esc.replace("'", "\\'")]
+        if '\n' not in name and '"' not in name:
+            out.append('@"%s"' % name)
+            out.append("@'%s'" % name)
+        if name.isascii() and name.isidentifier() and name not in G.KEYWORDS:
+            out.append(name)
+        if name.endswith('\n') and not name.startswith(' ') and name.count('\n') == 1 and name != '\n':
+            out.append('|||\n  %s|||' % name)
+            out.append('|||\n\t%s|||' % name)
+        return out
+    dup = []
+    for name in ['ff', 'a b', 'ff\n', 'x\n', 'é', 'k1']:
+        sp = spellings(name)
+        for s1 in sp:
+            for s2 in sp:
+                obj = '{ %s: 1, %s%s 2 }' % (s1, s2, rng.choice([':', '::', ':::', '+:']))
+                frame = rng.choice(['%s', 'local dead = %s; 0', 'if false then %s else 0', 'local f() = %s; 0', '{ inner:: %s }', '[%s][1:]'])
+                dup.append((name, frame % obj))
+    douts = vlib.impl([vlib.eval_line(src, load=1) for _, src in dup])
+    for (name, src), a in zip(dup, douts):
+        rep.bump('dup-spelling')
+        rep.count('c09dup:' + src, True)
+        pa = parse_ana(a)
+        if a.startswith('panic') or a.startswith('crash'):
+            rep.violation('c09:' + src, 'analysis crashed: ' + a[:200], {'src': src, 'impl': a})
+        elif pa[0] != 'analyze' or pa[1] != 'RepeatedFieldName':
+            rep.violation('c09dup:' + src, 'two spellings of the field name %r in one object were not reported as a repeated field: %r' % (name, pa),
+                          {'src': src, 'impl': a, 'expected': ['analyze', 'RepeatedFieldName', name]})
     # run-time half: accepted programs never hit an unbound variable / self / $ at run time (that would be a panic)
     accepted = [c for c, a in zip(cases, io) if a == 'ok' and c['kind'] == 'base']
     eo = vlib.impl([vlib.eval_line(c['src'], max_stack=200) for c in accepted])
